@@ -35,25 +35,33 @@ class C04(SessionCheck):
         # the peer stops reading: a 6 MB request is stuck in the transport write, 64 small asynchronous requests follow, then a
         # synchronous call with a 1 s timeout - which must return or raise within it, whatever happens to the others
         out.append({'kind': 'stall', 'transport': 'unix', 'size': 6 * 1024 * 1024, 'timeout': 4.0, 'burst': 64, 'sync_timeout': 1.0})
+        # a peer that is NOT silent but never answers in time: it trickles notifications, or the reply itself in small pieces, for several
+        # timeouts - the synchronous call still ends within its configured timeout
+        for i in range(2 if tier == 'quick' else 8):
+            out.append({'kind': 'trickle', 'transport': ['unix', 'ssh', 'tls'][i % 3] if tier == 'thorough' else 'unix', 'what': ['notifications', 'reply-pieces'][i % 2],
+                        'sync_timeout': 1.0, 'for': 3.5, 'base11': i % 4 < 2})
         return out
 
     def run_impl(self, case):
+        if case.get('kind') == 'trickle':
+            from impl import e2e
+            return e2e.run_trickle(case)
         if case.get('kind') == 'stall':
             from impl import e2e
             return e2e.run_stall(case)
         return SessionCheck.run_impl(self, case)
 
     def model_lines(self, case):
-        return [] if case.get('kind') == 'stall' else SessionCheck.model_lines(self, case)
+        return [] if case.get('kind') in ('stall', 'trickle') else SessionCheck.model_lines(self, case)
 
     def model_obs(self, case, outs):
-        return None if case.get('kind') == 'stall' else SessionCheck.model_obs(self, case, outs)
+        return None if case.get('kind') in ('stall', 'trickle') else SessionCheck.model_obs(self, case, outs)
 
     def compare(self, case, io, mo):
-        return None if case.get('kind') == 'stall' else SessionCheck.compare(self, case, io, mo)
+        return None if case.get('kind') in ('stall', 'trickle') else SessionCheck.compare(self, case, io, mo)
 
     def nontrivial(self, case, io):
-        return True if case.get('kind') == 'stall' else SessionCheck.nontrivial(self, case, io)
+        return True if case.get('kind') in ('stall', 'trickle') else SessionCheck.nontrivial(self, case, io)
 
     def oracle_e2e(self, case, io):
         sc = case['sc']
@@ -87,6 +95,13 @@ class C04(SessionCheck):
         return None
 
     def oracle(self, case, io):
+        if case.get('kind') == 'trickle':
+            if io.get('connect') != 'ok':
+                return ('C04:e2e-connect', 'connect failed: %s' % io.get('connect'))
+            if io['state'] != 'ok' or io['dt'] > case['sync_timeout'] + 1.0:
+                return ('C04:call-outlived-timeout', 'a synchronous call with timeout %.1f s to a peer that keeps sending %s for %.1f s without completing an answer %s after %.2f s' % (
+                    case['sync_timeout'], case['what'], case['for'], 'had not returned' if io['state'] != 'ok' else 'ended (%s)' % io['out'], io['dt']))
+            return None
         if case.get('kind') == 'stall':
             if 'harness_error' in io:
                 return ('C04:harness', io['harness_error'])
